@@ -1053,7 +1053,9 @@ pub fn run(ctx: &mut Ctx) {
     ctx.assumptions.push("#elif/#else after #else in one chain is ill-formed C and outside the property: checked for no-panic only".into());
     ctx.assumptions.push("harness built with debug assertions and overflow checks on (as the repository's own cargo test)".into());
 
-    ctx.replay_tier(&check_record);
+    if !ctx.replay_tier(&check_record) {
+        return;
+    }
 
     // Part A: exhaustive
     let max_len: u32 = std::env::var("VERIF_C11_MAXLEN").ok().and_then(|s| s.parse().ok()).unwrap_or(ctx.tier.pick(6, 8));
